@@ -239,7 +239,16 @@ func (f *frame) libCall(callee *ssa.Function, c *ssa.CallCommon, base string, re
 		r := f.resultHavoc(base, resT)
 		f.assume(fmt.Sprintf("(bvsgt (slen %s) #x0000000000000000)", r.term))
 		return r
-	case "strconv.ParseInt", "strconv.ParseUint", "strconv.ParseFloat", "strconv.Atoi", "strconv.ParseBool", "strconv.Unquote":
+	case "strconv.ParseInt", "strconv.Atoi":
+		used("ParseInt/Atoi: pure; when no error is returned and the text does not start with '-', the value is >= 0 (value otherwise not modelled)")
+		r := f.resultHavoc(base, resT)
+		if len(r.tuple) == 2 {
+			sArg := arg(0)
+			f.assume(fmt.Sprintf("(=> (and (= %s I_nil) (bvugt (slen %s) #x0000000000000000) (not (= (sbyte %s #x0000000000000000) #x2d))) (bvsge %s %s))",
+				r.tuple[1].term, sArg, sArg, r.tuple[0].term, bvLit(0, bitsOfSort(e.R.sortOf(r.tuple[0].t)))))
+		}
+		return r
+	case "strconv.ParseUint", "strconv.ParseFloat", "strconv.ParseBool", "strconv.Unquote":
 		used("pure parsing function (value, error) – result not modelled")
 		return f.resultHavoc(base, resT)
 	case "unicode.IsLetter", "unicode.IsDigit", "unicode.IsSpace", "unicode.IsUpper", "unicode.IsLower", "unicode.In", "unicode.Is",
